@@ -136,6 +136,8 @@ func vobserve(string, any)
 func vconcrete(int) int
 func vsetfield(obj any, name string, v any)
 func vgetfield(obj any, name string) any
+func vcapture()
+func vcaptured() string
 `
 }
 
@@ -275,6 +277,33 @@ func vsetfield(obj any, name string, val any) {
 		return
 	}
 	f.Set(vreflect.ValueOf(val).Convert(f.Type()))
+}
+
+var (
+	vSavedStdout *vos.File
+	vCapFile     *vos.File
+)
+
+func vcapture() {
+	f, err := vos.CreateTemp("", "verifcap")
+	if err != nil {
+		panic(err)
+	}
+	vSavedStdout, vCapFile = vos.Stdout, f
+	vos.Stdout = f
+}
+
+func vcaptured() string {
+	if vCapFile == nil {
+		return ""
+	}
+	vos.Stdout = vSavedStdout
+	name := vCapFile.Name()
+	vCapFile.Close()
+	b, _ := vos.ReadFile(name)
+	vos.Remove(name)
+	vCapFile = nil
+	return string(b)
 }
 
 func vgetfield(obj any, name string) any {
